@@ -119,9 +119,9 @@ func c08CountStrings(maxLen int) int64 {
 
 var c08Args = []any{nil, true, 1, "a", "a.b", []any{}, []any{"a"}, map[string]any{}, map[string]any{"a": 1}, "$merge:a", `$"{a}"`, 2.5, "json", "$repeat", -1, 0, map[string]any{"x": -1, "y": 2}}
 var c08DirKeys = []string{"$merge", "$replace", "$encode", "$decode", "$value", "$repeat", "$output", "$match", "$delete", "$invert", "$parent", "$path",
-	"$merge:a", "$replace:a", `$"{a}"`, "$env:HOME", "$required", "$bogus"}
+	"$merge:a", "$replace:a", `$"{a}"`, "$env:HOME", "$required", "$bogus", "$"}
 var c08DirStrings = []any{"$merge:a", "$merge:", "$merge:a.b", "$replace:a", "$replace:[a]", "$merge:[{a: 1}, a]", `$"{a}"`, `$"{b}"`, `$"{"`, `$"{}"`, `$"{$repeat}"`,
-	"$env:HOME", "$env:", "$repeat", "$required", "$delete", "$replace", "$output", "$bogus", "$merge:[", "$merge:{", "$merge:*x"}
+	"$env:HOME", "$env:", "$repeat", "$required", "$delete", "$replace", "$output", "$bogus", "$merge:[", "$merge:{", "$merge:*x", "$", "$$", "$ ", "$é", "$:"}
 
 // c08Inject returns every document obtained from base by one injection.
 func c08Inject(base any) []any {
@@ -602,6 +602,17 @@ func c08CLICases(inj []c08Inj, thorough bool) []c08CLICase {
 			out = append(out, c08CLICase{Tool: "bkli", Files: map[string]string{in: content, "t.yaml": "a: 1\n"}, Args: []string{"t.yaml", in}})
 			out = append(out, c08CLICase{Tool: "bkl", Files: map[string]string{in: content, "in.x." + ext: "a: 1\n"}, Args: []string{"in.x." + ext}})
 		}
+	}
+	// streams in which several documents fail (and some do not): one diagnostic, no partial output, no deadlock
+	for _, content := range []string{
+		"a: $required\n---\nb: $required\n",
+		"ok: 1\n---\na: $required\n---\nb: $bogus\n---\nok: 2\n",
+		"a: $merge:nope\n---\nb: $\"{nope}\"\n---\nc: $required\n",
+		"ok: 1\n---\nok: 2\n---\nok: 3\n---\nok: 4\n---\nok: 5\n---\nok: 6\n---\nok: 7\n---\na: $required\n---\nb: $required\n",
+	} {
+		out = append(out, c08CLICase{Tool: "bkl", Files: map[string]string{"in.yaml": content}, Args: []string{"in.yaml"}})
+		out = append(out, c08CLICase{Tool: "bkl", Files: map[string]string{"in.yaml": content}, Args: []string{"-o", "o.json", "in.yaml"}})
+		out = append(out, c08CLICase{Tool: "bklr", Files: map[string]string{"in.yaml": content}, Args: []string{"in.yaml"}})
 	}
 	// -P (MergeFile instead of MergeFileLayers): inputs that fail to load or to merge must still be reported
 	for _, content := range []string{"a: [\n", "$match: {zz: 1}\nb: 1\n", "a: $required\n", "{\"a\": }\n", "a: 1\n---\n$match: {nope: 1}\nb: 2\n", "$parent: true\n", "a: &x [*x]\n"} {
